@@ -2,9 +2,9 @@ package main
 
 import (
 	"fmt"
-	"reflect"
 	"go/token"
 	"go/types"
+	"reflect"
 	"sort"
 	"strings"
 
